@@ -146,6 +146,7 @@ def handle : List String → String
       withFile mergeHeader f fun f =>
         match getMergeModified tree f with
         | .ok d => "ok " ++ sList (d.map fun p => sText p.1 ++ "/" ++ sText p.2)
+        | .error .key => "E:BadStanza"
         | .error e => sErr e
     | none => "bad-op"
   | ["inside", d, f] =>
